@@ -21,6 +21,12 @@ Decided:
               handle's own checkpoint_sequence/sequence (fallbacks), and at least one of them from the header. With an
               empty region and a counter restarted below wal_sequence, the next acknowledged record carries a sequence
               <= checkpoint_sequence and every scan (pending_records, recovery) filters it out: the record is lost.
+  FLOW-C05i   the pending byte count a reopened WAL starts with is the sum of the scanned records newer than the
+              checkpoint: the value placed in EmbeddedWal.pending_bytes on the open path derives from the records
+              returned by scan_records - their total_size, selected by a comparison of their sequence (inline, in a
+              closure, or in a private helper the value passes through). A count derived from the head positions
+              (write_head - checkpoint_head) is 0 after the ring wrapped with records pending, which switches off both
+              append guards: the next append overwrites acknowledged records.
 Not decided: the exhaustive state-space claim over operation sequences."""
 from . import lib
 from .facts import Place, op_place
@@ -355,9 +361,9 @@ def _sentinel_slot(ctx, F):
                     'and the sentinel erases it (the scan then stops at offset 0 and every pending record is lost)', line=z.line, sink='write_zero_header', detail='sentinel-on-full-ring')
 
 
-def _open_sequence(ctx, F):
-    ctx.rule('FLOW-C05h', 'open_internal seeds EmbeddedWal.sequence from Header.wal_sequence (directly or as the fallback of the scan)')
-    fn = ctx.need('FLOW-C05h', 'EmbeddedWal::open_internal')
+def _open_sequence(ctx, F, R='FLOW-C05h'):
+    ctx.rule(R, 'open_internal seeds EmbeddedWal.sequence from Header.wal_sequence (directly or as the fallback of the scan)')
+    fn = ctx.need(R, 'EmbeddedWal::open_internal')
     if fn is None:
         return
     mine = {f.path: f for f in wal_fns(F)}
@@ -378,7 +384,7 @@ def _open_sequence(ctx, F):
                     continue
                 sources.append((body, lib.slice_back(body, lib.rv_operands(stx['rv']), through_calls=True, at=(stx['bb'], stx['idx'])), stx['line'], 'store'))
     if not sources:
-        ctx.lost('FLOW-C05h', 'open_internal: no construction of EmbeddedWal.sequence found')
+        ctx.lost(R, 'open_internal: no construction of EmbeddedWal.sequence found')
         return
     seeded = False
     bad = []
@@ -390,15 +396,70 @@ def _open_sequence(ctx, F):
             bad.append((body, line, what))
     if bad or not seeded:
         body, line, what = bad[0] if bad else (sources[0][0], sources[0][2], sources[0][3])
-        ctx.bad('FLOW-C05h', body, 'the %s of EmbeddedWal.sequence on the open path does not derive from Header.wal_sequence: when the region scans empty after a checkpoint the counter restarts '
+        ctx.bad(R, body, 'the %s of EmbeddedWal.sequence on the open path does not derive from Header.wal_sequence: when the region scans empty after a checkpoint the counter restarts '
                 'below the checkpoint sequence, the next acknowledged record is numbered <= checkpoint_sequence and every later scan filters it out (lost record)' % what,
                 line=line, sink='EmbeddedWal.sequence', detail='open-sequence-not-from-header')
     else:
-        ctx.ok('FLOW-C05h', fn, 'all %d value(s) placed in EmbeddedWal.sequence on the open path derive from Header.wal_sequence or the handle\'s own counters' % len(sources))
+        ctx.ok(R, fn, 'all %d value(s) placed in EmbeddedWal.sequence on the open path derive from Header.wal_sequence or the handle\'s own counters' % len(sources))
+
+
+def _deep_fields(F, fn, ops, at, depth=2):
+    """fields read anywhere the value passes: the slice itself, closures on it, and the bodies of local callees it goes through"""
+    sl = lib.slice_back(fn, ops, through_calls=True, at=at)
+    fields = set(sl.fields)
+    calls = list(sl.calls)
+    bodies = [F.fns[c] for c in sl.closures if c in F.fns]
+    if depth > 0:
+        for c in sl.calls:
+            h = F.fns.get(c.local_callee) if c.local_callee else None
+            if h is not None and not c.is_('EmbeddedWal::scan_records'):
+                bodies.append(h)
+                bodies += F.closures_of(h)
+    for b in bodies:
+        for bb, i, st in b.stmts():
+            for o in lib.rv_operands(st['rv']):
+                q = op_place(o)
+                if q is not None:
+                    fields |= set(q.field_owners())
+        calls += list(b.calls())
+    return fields, calls
+
+
+def _open_pending(ctx, F, R='FLOW-C05i'):
+    ctx.rule(R, 'open_internal: pending_bytes = sum of total_size over scanned records with sequence > checkpoint')
+    fn = ctx.need(R, 'EmbeddedWal::open_internal')
+    if fn is None:
+        return
+    ctx.touch(fn, len(fn.blocks))
+    srcs = []
+    for bb, i, st in fn.stmts():
+        rv = st['rv']
+        if rv['k'] == 'agg' and rv.get('ak') == 'adt' and rv.get('adt') == WAL and 'pending_bytes' in (rv.get('fields') or []):
+            srcs.append(([rv['ops'][rv['fields'].index('pending_bytes')]], (bb, i), st.get('l')))
+    mine = {f.path for f in wal_fns(F)}
+    for f in lib.reachable_fns(F, [fn]).values():
+        if f.path in mine or f.path == fn.path:
+            for stx in lib.field_stores(f, WAL, 'pending_bytes'):
+                if stx['lhs'].field_owners()[-1] == (WAL, 'pending_bytes') and f.path == fn.path:
+                    srcs.append((lib.rv_operands(stx['rv']), (stx['bb'], stx['idx']), stx['line']))
+    if not srcs:
+        ctx.lost(R, 'open_internal: no initialiser of EmbeddedWal.pending_bytes found')
+        return
+    for ops, at, line in srcs:
+        ctx.evaluations += 1
+        fields, calls = _deep_fields(F, fn, ops, at)
+        scanned = any(c.is_('EmbeddedWal::scan_records') for c in calls)
+        if scanned and ('ScannedRecord', 'total_size') in fields and ('ScannedRecord', 'sequence') in fields:
+            ctx.ok(R, fn, 'pending_bytes on open derives from the scanned records (total_size selected by sequence)', line=line)
+        else:
+            ctx.bad(R, fn, 'pending_bytes on open is not the sum of the scanned records newer than the checkpoint (it derives from %s): after the ring wrapped with records pending the '
+                    'count is too low, the append guards are off and the next append overwrites acknowledged records' % (', '.join(sorted('%s.%s' % x for x in fields if x[0])[:4]) or 'constants'),
+                    line=line, sink='EmbeddedWal.pending_bytes', detail='open-pending-not-from-scan')
 
 
 def run(ctx):
     _sentinel_slot(ctx, ctx.facts())
+    _open_pending(ctx, ctx.facts())
     _open_sequence(ctx, ctx.facts())
     ctx.rule('GUARD-C05a', 'a ring position becomes 0 only where pending_bytes == 0 is established (edge, dominating store, or every caller)')
     ctx.rule('MPT-C05b', 'append_entry: write_record ok -> bookkeeping -> maybe_write_sentinel ok on every Ok path')
